@@ -104,7 +104,13 @@ where
                 IndexData::I18NString(strings) => {
                     for _ in 0..entry.num_items {
                         let (rest, raw_string) = complete::take_till(|item| item == 0)(remaining)?;
-                        remaining = rest;
+                        // skip the NUL terminator so that the next item starts after it
+                        remaining = rest.get(1..).ok_or_else(|| {
+                            Error::Nom(format!(
+                                "i18n string array of tag {} is not NUL-terminated",
+                                entry.tag
+                            ))
+                        })?;
                         let string = String::from_utf8_lossy(raw_string).to_string();
                         strings.push(string);
                     }
